@@ -167,8 +167,22 @@ func (q *quorumAckTracker) AdvanceHeadOffset(headOffset int64) {
 
 	if q.requiredAcks == 0 {
 		q.notifyCommitOffsetAdvanced(headOffset)
-	} else {
+		return
+	}
+
+	e, found := q.tracker[headOffset]
+	if !found {
 		q.tracker[headOffset] = &util.BitSet{}
+		return
+	}
+
+	// Some followers have already acked this entry: the cursors read the wal as soon as the
+	// entry is synced, which happens before this callback. Their acks count now
+	if uint32(e.Count()) >= q.requiredAcks {
+		delete(q.tracker, headOffset)
+		if headOffset > q.commitOffset.Load() {
+			q.notifyCommitOffsetAdvanced(headOffset)
+		}
 	}
 }
 
@@ -302,13 +316,24 @@ func (c *cursorAcker) ack(offset int64) {
 
 	e, found := q.tracker[offset]
 	if !found {
-		// The entry has already previously reached the quorum.
-		// There's nothing more left to do here.
-		return
+		if offset <= q.headOffset.Load() {
+			// The entry has already previously reached the quorum.
+			// There's nothing more left to do here.
+			return
+		}
+
+		// The ack has overtaken the leader's own sync callback for this entry: remember it,
+		// it is counted when the head offset gets there
+		e = &util.BitSet{}
+		q.tracker[offset] = e
 	}
 
 	// Mark that this follower has acked the entry
 	e.Set(c.cursorIdx)
+	if offset > q.headOffset.Load() {
+		return
+	}
+
 	if uint32(e.Count()) == q.requiredAcks {
 		delete(q.tracker, offset)
 
